@@ -37,7 +37,9 @@ def configs(tier, seed):
                 continue  # fully filled: a single basis state, nothing to decide beyond n=2
             variants = [""]
             if kind in ("uhf", "uhf_cpmc"):
-                variants = ["same", ""]
+                variants = ["same", ""] + (["complex"] if kind == "uhf" else [])
+            if kind == "rhf":
+                variants = ["", "complex"]
             if kind == "multislater":
                 ndet = len(trials.all_dets(n, na, nb))
                 variants = ["ref:%d" % k for k in (range(ndet) if thorough else sorted(set([0, ndet // 2, ndet - 1])))]
